@@ -135,7 +135,13 @@ class ParsersWorld:
                 continue
             if r < 0.15:
                 kw = workload.pick_run_kwargs(ro, self.modes, cur["run"])
-                ops.append({"op": "from_file", "kw": kw, "name": ro.choice(["in.sql", "x.ddl", "t.hql"])})
+                fop = {"op": "from_file", "kw": kw, "name": ro.choice(["in.sql", "x.ddl", "t.hql"])}
+                if ro.random() < 0.08:
+                    # a settings key the constructor does not know: today a TypeError on both sides, every time
+                    fop["settings_extra"] = {"encoding": "utf-8"}
+                ops.append(fop)
+                if ro.random() < 0.3:
+                    ops.append(dict(fop))        # the same call again with an equal settings dict
                 continue
             rr = ro.random()
             if last_kw is not None and rr < 0.3:
@@ -277,6 +283,8 @@ class ParsersWorld:
                     f.write(cur["ddl"])
                 before = _snapshot(cwd)
                 settings = dict(cur["flags"])
+                if op.get("settings_extra"):
+                    settings.update(op["settings_extra"])
                 settings_before = core.cjson(core.canon(settings))
                 try:
                     r = self.parse_from_file(path, parser_settings=settings, **op["kw"])
@@ -290,10 +298,12 @@ class ParsersWorld:
                     st["violations"].append({"oracle": "args_modified", "op_index": i,
                                              "expected": settings_before, "observed": core.canon(settings)})
                 if outcome is not None:
-                    ref_args = (cur["ddl"], cur["flags"], op["kw"])
+                    ref_args = (cur["ddl"], dict(cur["flags"], **(op.get("settings_extra") or {})), op["kw"])
                     expected = self.ref(*ref_args)
+                    if expected and expected[0] == "ctor-exc":
+                        expected = ["exc"] + list(expected[1:])      # through parse_from_file a constructor error is just an error
                     stats["refs"] += 1
-                    if self.ref_x is not None and outcome == expected:
+                    if self.ref_x is not None and outcome == expected and not op.get("settings_extra"):
                         # the very same call in another process (other hash seed, plain C locale) yields an equal result
                         other = self.ref_x.from_file(path, cur["flags"], op["kw"])
                         stats["from_file_other_process"] += 1
@@ -378,6 +388,8 @@ class ParsersWorld:
             # pristine single-use processes, so a difference is attributable to the hash seed alone)
             if expected is not None and self.ref_x is not None and not st["violations"] and ref_args is not None:
                 expected_x = self.ref_x(*ref_args)
+                if expected_x and expected_x[0] == "ctor-exc" and expected[0] == "exc":
+                    expected_x = ["exc"] + list(expected_x[1:])      # same normalisation as applied to `expected` above
                 stats["refs_other_hashseed"] += 1
                 if expected_x != expected:
                     st["violations"].append({"oracle": "hashseed_dependent", "op_index": i, "op": kind,
@@ -418,7 +430,7 @@ class ParsersWorld:
         rv = core.stream(int(trace.get("seed") or 0), "victims:%d" % i)
         c = core.corpus()
         idxs = [n for n in range(len(c)) if len(c[n]["ddl"]) <= 6000]
-        for idx in rv.sample(idxs, min(len(idxs), 40 if trace.get("swarm", {}).get("marathon") else 24)):
+        for idx in rv.sample(idxs, min(len(idxs), 48)):
             it = c[idx]
             stats["victims_run"] += 1
             try:
